@@ -83,10 +83,21 @@ type Obs struct {
 	COps        []OpObs
 	CFirstSeg   int
 	Panic       string
+	// the request looked at again: after the server wrote (if it wrote) and at the end of the session
+	ReqLater []ReqSeen
 	// live objects of the session (for the tamper engine)
 	CC netio.Conn `json:"-"` // the client's tunnel conn
 	CT *Conn      `json:"-"` // its transport
 	ST *Conn      `json:"-"` // the server's transport
+}
+
+// ReqSeen is what the holder of the ConnRequest reads out of it at a later point of the session.
+type ReqSeen struct {
+	When    string
+	Addr    []byte
+	User    string
+	Payload []byte // informational: the payload slice is a borrowed buffer
+	Panic   string
 }
 
 // Script is the driver script of a session and, per line, the answer the implementation's
@@ -350,7 +361,8 @@ func (a *auxSink) pieces(forClientReader, started bool) ([][]byte, string) {
 	return append([][]byte{f.First}, f.Chunks...), f.Err
 }
 
-func RunOps(rd netio.Conn, ops []ROp, cfg Cfg, target Target, clientReader, sinkStarted bool) (out []OpObs) {
+// RunOps runs a reader schedule; cont: go on after a call failed (a caller that reads again after an error).
+func RunOps(rd netio.Conn, ops []ROp, cfg Cfg, target Target, clientReader, sinkStarted, cont bool) (out []OpObs) {
 	for _, op := range ops {
 		o := OpObs{Op: op}
 		pan := common.Safely(func() {
@@ -395,7 +407,7 @@ func RunOps(rd netio.Conn, ops []ROp, cfg Cfg, target Target, clientReader, sink
 			o.Err = fmt.Sprintf("panic:%v", pan)
 		}
 		out = append(out, o)
-		if o.Err != "ok" && o.Err != "eof" {
+		if o.Err != "ok" && o.Err != "eof" && (!cont || pan != nil || strings.HasPrefix(o.Err, "harness:")) {
 			break
 		}
 	}
@@ -594,8 +606,23 @@ func run(c Case, sid int, cfg Cfg, keys Keys, obs *Obs, sc *Script) {
 	if sconn == nil {
 		return
 	}
+	recheck := func(when string) {
+		seen := ReqSeen{When: when}
+		if pan := common.Safely(func() {
+			seen.Addr, seen.User, seen.Payload = AddrBytes(req.Addr), req.Username, bytes.Clone(req.Payload)
+		}); pan != nil {
+			seen.Panic = fmt.Sprint(pan)
+		}
+		obs.ReqLater = append(obs.ReqLater, seen)
+		u := seen.User
+		if u == "" {
+			u = "-"
+		}
+		sc.Add(fmt.Sprintf("%d reqcheck", sid), fmt.Sprintf("request %s %s", HexField(seen.Addr)[min(1, len(HexField(seen.Addr))):], u))
+	}
+	defer recheck("session-end")
 	serverReads := func() {
-		obs.SOps = RunOps(sconn, c.SReads, cfg, c.Target, false, true)
+		obs.SOps = RunOps(sconn, c.SReads, cfg, c.Target, false, true, false)
 		for _, o := range obs.SOps {
 			sc.Add(OpLine(sid, "s", o.Op, now, true), OpExpect(o, false))
 		}
@@ -649,10 +676,12 @@ func run(c Case, sid int, cfg Cfg, keys Keys, obs *Obs, sc *Script) {
 	}
 	if c.WriteFirst {
 		serverWrites()
+		recheck("after-server-write")
 		serverReads()
 	} else {
 		serverReads()
 		serverWrites()
+		recheck("after-server-write")
 	}
 	if obs.SWriteErr != "" || obs.RespFrames.Err != "" {
 		return
@@ -668,7 +697,7 @@ func run(c Case, sid int, cfg Cfg, keys Keys, obs *Obs, sc *Script) {
 	}
 	sc.Add(fmt.Sprintf("%d cseg %d", sid, obs.CFirstSeg), "ok")
 	now = time.Now().Unix()
-	obs.COps = RunOps(cc, c.CReads, cfg, c.Target, true, c.SinkStarted)
+	obs.COps = RunOps(cc, c.CReads, cfg, c.Target, true, c.SinkStarted, false)
 	for _, o := range obs.COps {
 		flatOnly := o.Op.Kind == "tunnel" && !c.SinkStarted
 		sc.Add(OpLine(sid, "c", o.Op, now, c.SinkStarted), OpExpect(o, flatOnly))
